@@ -2,9 +2,9 @@
 (***************************************************************************)
 (* C11 model + generator: m-selection and error rule for every length      *)
 (* 0..MaxLen (invariant), and byte contents whose poker P-value is dialled *)
-(* towards 0.01 (a fraction t% of the positions is forced to one byte      *)
-(* value), emitted with the verdict under the selected m and the P-values  *)
-(* under the other two m (a wrong m then gives a different verdict).       *)
+(* through 0.01 one byte at a time (the last t bytes are forced to one     *)
+(* byte value), emitted with the verdict under the selected m and the      *)
+(* P-values under the other two m (a wrong m then gives another verdict).  *)
 (***************************************************************************)
 EXTENDS Integers, Sequences, FiniteSets, TLC, Json, Single
 
@@ -26,7 +26,8 @@ Content(d) == Force([i \in 1..d.nb |->
        [] d.t = 1001 -> Cyc8[(i % 8) + 1]
        [] d.t = 1002 -> IF H(d.seed + 1, i) % 10 = 0 THEN (H(d.seed, i) \div 4) % 256 ELSE 27
        [] d.t = 1003 -> IF H(d.seed + 1, i) % 10 = 0 THEN (H(d.seed, i) \div 4) % 256 ELSE Cyc8[(i % 8) + 1]
-       [] OTHER -> IF H(d.seed + 1, i) % 1000 < d.t THEN (H(d.seed, 0) % 256) ELSE (H(d.seed, i) \div 4) % 256])
+       \* dials 0..999: the last t bytes are overwritten with one fixed byte value: P falls through 0.01 one byte at a time
+       [] OTHER -> IF i > d.nb - d.t THEN (H(d.seed, 0) % 256) ELSE (H(d.seed, i) \div 4) % 256])
 PUnder(bytes, m) == PokerResult(BytesToBits(bytes), m).P
 Vector(j) == LET d == Descs[j + 1]  bs == Content(d)  sv == SingleVerdict(bs) IN
    [ev |-> "single", label |-> d, bytes |-> bs, verdict |-> sv.verdict, err |-> sv.err, m |-> sv.m, P |-> sv.P,
